@@ -264,6 +264,11 @@ def boom(ctx, dist, nontriv, per_cfg):
         cases.append(c)
         cases.append({"id": "after-%d" % k, "transport": "post", "bare": True, "query": "{ ok t { s } }", "plan": plan0})
     # one P and no collection: what a transport returns to a sync.Pool is what the next request takes out of it
+    # over a websocket the operation's goroutine recovers; afterwards the connection must be as before: the same
+    # id can be used again on it
+    for k, (name, q, ov) in enumerate(sites):
+        cases.append({"id": "panic-ws-%d-%s" % (k, name), "transport": "ws", "query": q, "variables": {"v": True}, "operationName": "Boom",
+                      "plan": {"seed": ctx.seed, "rates": {}, "overrides": ov}, "then": "{ ok t { s } }", "timeoutMs": 4000})
     rc, so, se = vf.sh([b, "-mode", "http"], inp="\n".join(json.dumps(c) for c in cases) + "\n", timeout=600,
                        env={"GOMAXPROCS": "1", "GOGC": "off"})
     if rc != 0:
@@ -294,6 +299,18 @@ def boom(ctx, dist, nontriv, per_cfg):
                         bad = "status %s body %s" % (r["status"], (r.get("body") or "")[:200])
                 except ValueError:
                     bad = "body is not JSON: " + (r.get("body") or "")[:200]
+            elif tr == "ws":
+                frames = (r.get("body") or "").split("\n")
+                want_after = ["--then--", "next:" + json.dumps({"data": json.loads(ref["body"])["data"]}, separators=(",", ":")), "complete:"]
+                head = frames[:frames.index("--then--")] if "--then--" in frames else frames
+                if not head or not head[0].startswith("error:") or BOOM_MSG not in head[0] or head[1:] not in ([], ["complete:"]):
+                    bad = "frames of the panicking operation are not one error frame (and complete): " + " | ".join(frames[:3])[:300]
+                    frames = ["", ""] + want_after
+                frames = ["", ""] + frames[len(head):]
+                if bad:
+                    pass
+                elif [f if not f.startswith("next:") else "next:" + json.dumps({"data": json.loads(f[5:]).get("data")}, separators=(",", ":")) for f in frames[2:]] != want_after:
+                    bad = "the connection is not as before: the same id cannot be used again: " + " | ".join(frames[2:])[:300]
             elif tr == "sse":
                 w = sse_wellformed(r.get("body") or "")
                 if w:
